@@ -14,6 +14,7 @@ import (
 	"runtime"
 	"strconv"
 	"sync"
+	"sync/atomic"
 	"time"
 
 	"github.com/tetratelabs/wazero"
@@ -255,6 +256,7 @@ type tracer struct {
 	nmods  int
 	gate   func(ev string, m *wasm.ModuleInstance) // called outside mu for point events
 	drop   string                                  // event kind to drop (binding demonstration)
+	jitter uint64
 }
 
 func goid() int64 {
@@ -289,6 +291,10 @@ func (tr *tracer) hook(e wasm.VerifEvent) {
 			tr.gate(e.Ev[6:], e.Mod)
 		}
 		return
+	}
+	// widen the windows between the unlogged lock-free steps and the logged ones (before the event is ordered)
+	if n := atomic.AddUint64(&tr.jitter, 0x9e3779b97f4a7c15); (n>>33)%4 == 0 {
+		time.Sleep(time.Duration((n>>40)%80) * time.Microsecond)
 	}
 	tr.mu.Lock()
 	defer tr.mu.Unlock()
